@@ -555,7 +555,7 @@ func (ex *Exec) store(addr Value, v Value, fr *frame) {
 	if c == nil {
 		ex.goPanicf("invalid memory address or nil pointer dereference")
 	}
-	if c.Own != nil {
+	if c.Own != nil && !identicalValue(c.V, v) {
 		ex.recordWrite(c.Own, fr)
 	}
 	if c.Atomic {
